@@ -180,7 +180,10 @@ class Job:
     def is_canary(self, name, desc=""):
         return any(re.search(p, name) or re.search(p, desc) for p in self.expect_fail)
     def failed(self):
-        return [(n, d) for (n, d, s) in self.results if s != "SUCCESS" and not self.is_canary(n, d)]
+        return [(n, d) for (n, d, s) in self.results if s == "FAILURE" and not self.is_canary(n, d)]
+    def unknown(self):
+        """UNKNOWN/ERROR: obligations cbmc could not decide (typically everything downstream of a failed unwinding assertion)"""
+        return [(n, d) for (n, d, s) in self.results if s not in ("SUCCESS", "FAILURE") and not self.is_canary(n, d)]
     def canaries_ok(self):
         """every expect_fail pattern matched at least one FAILURE result"""
         bad = []
@@ -271,6 +274,8 @@ class Report:
                 self.undecided.append("%s: zero obligations generated" % j.name)
             for (n, d) in j.failed():
                 self.violations.append(dict(job=j.name, obligation=n, desc=d, trace=j.trace_for(n), jobobj=j))
+            if j.unknown() and not j.failed():
+                self.undecided.append("%s: %d obligations left UNKNOWN by cbmc" % (j.name, len(j.unknown()))); self._save_log(j)
             for (n, d, s) in j.results[:2]:
                 if len(self.samples) < 12: self.samples.append("%s: [%s] %s: %s" % (j.name, n, d, s))
 
